@@ -329,6 +329,12 @@ def gen_leaf_obligations(c, obj, mode, summ=None):
             if ('fw', f) in H and f not in c.fields:
                 obls.append(('frame.field_unchanged[%s]' % f, hy, ir.eq(H[('f', f)], old.heap[('f', f)])
                              if isinstance(H[('f', f)], ir.T) else ir.FALSE))
+    if c.kind != 'method':
+        # a store into an attribute that is not part of the contract's state (a non-integer attribute the constructor set, or a new
+        # one): a value kept there changes later behaviour in ways a one-step contract from the reflected state cannot see
+        for k in H:
+            if k[0] == 'fw' and k[1] not in sh.fields and k[1] not in c.fields and k[1] not in sh.arrays:
+                obls.append(('frame.state_outside_contract[%s]' % k[1], hy, ir.FALSE))
     for a, arr in sh.arrays.items():
         if a not in c.arrays:
             obls.append(('frame.array_unchanged[%s]' % a, hy, ir.aeq(H[('a', arr.name)], old.heap[('a', arr.name)])))
@@ -499,6 +505,9 @@ def replay_leaf(c, cfg, model, sh_names=None):
     pre_vals = {a: w.value for a, w in real_wires.items()}
     pre_fields = {a: v for a, v in vars(obj).items() if isinstance(v, int) and a not in INFRA}
     pre_arrays = {a: list(v) for a, v in vars(obj).items() if a in c.array_fields}
+    # attributes outside the contract's integer / array state (None, strings, ...): a store into one of them is a frame violation
+    pre_other = {a: v for a, v in vars(obj).items() if (v is None or isinstance(v, (str, float, bool))) and a not in INFRA}
+    pre_names = set(vars(obj))
     exc = None; retval = None
     try:
         retval = quiet(getattr(obj, c.meth), *call_args)
@@ -585,6 +594,13 @@ def replay_leaf(c, cfg, model, sh_names=None):
             if not (0 <= post_vals[a] < (1 << w.getWidth())): problems.append(('INV_wire ' + a, 'in range', post_vals[a]))
         for a, v in pre_fields.items():
             if a not in c.fields and getattr(obj, a) != v: problems.append(('field %s changed' % a, v, getattr(obj, a)))
+        if c.kind != 'method':
+            for a, v in pre_other.items():
+                now = getattr(obj, a, None)
+                if a not in c.fields and (type(now) is not type(v) or now != v):
+                    problems.append(('attribute %s (outside the contract state) assigned by %s()' % (a, c.meth), repr(v), repr(now)))
+            for a in set(vars(obj)) - pre_names:
+                if a not in c.fields and a != 'next': problems.append(('new attribute %s created by %s()' % (a, c.meth), 'absent', repr(getattr(obj, a))))
     except (ir.EvalError, Unsupported, ShapeError) as e:
         info.update(reproduced=False, note='contract not evaluable natively: %r' % (e,)); return info
     info['post'] = {'wires': post_vals, 'prepared': prepared}
